@@ -28,7 +28,9 @@
 //  * C11(b): free-floating base (Free mobilizer), every force element / constraint acts
 //    between two non-Ground bodies or on a non-base mobilizer, no gravity;
 //  * integrator exceptions (StepFailed, InitializationFailed) are outcomes that are
-//    counted; states returned before the exception are still judged;
+//    counted; states returned before the exception are still judged (C11: except those in
+//    the last 20% of the simulated time before a StepFailed, i.e. the approach to the point
+//    the integrator declared impassable);
 //  * every run is bounded by a count of returned states (no wall clock anywhere).
 #include "model.h"
 #include <array>
@@ -594,6 +596,10 @@ static Trace runEnergy(Ctx& c, const Spec& sp, const RunOpts& o, bool wantMoment
         if (c.args.verbose && c.args.getInt("trace", 0)) fprintf(stderr, "  t=%.6f %-13s E=%.9g KE=%.6g PE=%.6g Ediss=%.6g |P|=%.6g |L|=%.6g\n", r.t, skName(kind), r.ke + r.pe, r.ke, r.pe, r.ediss, r.P.norm(), r.L.norm());
         return true;
     });
+    if (T.run.outcome == "StepFailed") {   // the integrator gave up at tEnd: the approach to that point (last 20% in time) is not judged
+        size_t keep = 0; while (keep < T.rec.size() && T.rec[keep].t <= 0.8 * T.run.tEnd) ++keep;
+        T.rec.resize(keep);
+    }
     return T;
 }
 
@@ -671,12 +677,13 @@ static void checkC11(Ctx& c, long idx, Rng& r) {
     if (ev == 2) { auto cand = simpleCoords(sp, 0); if (cand.empty()) ev = 1; else { auto pr = cand[r.next() % cand.size()]; sp.evQ = ref.qStart[pr.first] + pr.second; sp.evQ0 = ref.q[sp.evQ] + r.sym(0.2); } }
     sp.eventKind = ev; sp.evW = r.uni(3, 9); sp.evPh = r.sym(3); sp.evDt = r.uni(0.15, 0.5);
 
-    RunOpts o; o.integ = integ;
+    RunOpts o; o.integ = (int)c.args.getInt("integ", integ);   // --integ / --acc: debugging aids only
     int dec = 3 + (int)((variant / 2) % (ikMaxDecade(integ, thorough) - 2));
     static const double mant[] = {1.0, 0.5, 0.2};
     { double mm = mant[r.integer(0, 2)]; o.acc = std::pow(10.0, -dec) * (dec >= 8 ? 1.0 : mm); }
     o.T = r.uni(1.0, 2.5); o.nReports = r.integer(5, 40); o.returnEvery = true;
     o.projEvery = r.coin(0.2) ? 1 : -1; o.finalTime = r.coin(0.3); o.maxStates = 4000;
+    if (c.args.getNum("acc", 0) > 0) o.acc = c.args.getNum("acc", 0);
     (void)nb;
 
     // ---- rank guard for the constraint set
@@ -685,7 +692,7 @@ static void checkC11(Ctx& c, long idx, Rng& r) {
         State s = b.m.init(); s.updQ() = sp.qref; b.m.sys.realize(s, Stage::Velocity);
         if (!rankOK(b, sp, s)) { c.skip("constraint-set-rank-deficient-or-no-free-dof"); return; }
     }
-    const std::string in = ikName(integ);
+    const std::string in = ikName(o.integ);
     const double alpha = ikAlpha(integ);
     char accs[16]; snprintf(accs, sizeof accs, "1e-%d", dec);
     Json wit0 = Json::obj().set("model", sp.toJson()).set("opts", o.toJson());
@@ -694,6 +701,7 @@ static void checkC11(Ctx& c, long idx, Rng& r) {
     c.obs("outcome:" + T.run.outcome + ":" + in);
     if (T.nonFinite) { c.viol("nonfinite:" + in, Json(wit0).set("what", "NaN/Inf in a returned state or its energy").set("t", T.run.tEnd)); return; }
     if (!T.guard.empty()) c.obs("run-cut:" + T.guard);
+    if (T.run.outcome == "StepFailed") c.obs("run-cut:last-20%-before-StepFailed");
     if (T.rec.size() < 3) { c.skip(T.guard.empty() ? "too-few-states:" + T.run.outcome : "guard-at-start:" + T.guard); return; }
     Drift D = measure(T);
     if (c.wantSample()) c.sample(Json(wit0).set("states", (long)T.rec.size()).set("drift_a", D.a).set("drift_P", D.P).set("drift_L", D.L).set("Escale", D.Escale));
